@@ -523,6 +523,59 @@ impl Sim {
                 self.violate("C03", format!("n{} became leader of term {} but at committed index {} it holds {:?} instead of {:?}", id, post.term, idx, have, want));
             }
         }
+        // C09 monitors
+        {
+            let r = &self.nodes[i].rn.as_ref().unwrap().raft;
+            let applied = r.raft_log.applied;
+            // a leader's log never holds more than one membership-change entry beyond its applied index
+            if post.state == StateRole::Leader {
+                let n_cc = post.entries.iter().enumerate().filter(|(k, e)| post.first + *k as u64 > applied && e.1 != 0).count();
+                if n_cc > 1 {
+                    self.violate("C09", format!("leader n{} holds {} membership-change entries beyond its applied index {}", id, n_cc, applied));
+                }
+            }
+            // an election started by timeout or by a transfer request: only by a voter of its own configuration,
+            // and never while a committed membership change is still unapplied
+            let started = matches!(post.state, StateRole::Candidate | StateRole::PreCandidate)
+                && (pre.state != post.state || post.term != pre.term)
+                && !(pre.state == StateRole::PreCandidate && post.state == StateRole::Candidate);
+            let by_itself = match input { None => true, Some(m) => m.get_msg_type() == MessageType::MsgTimeoutNow };
+            if started && by_itself {
+                let is_voter = conf.get_voters().contains(&id) || conf.get_voters_outgoing().contains(&id);
+                if !is_voter {
+                    self.violate("C09", format!("n{} started an election although it is not a voter of its configuration {:?}/{:?}", id, conf.get_voters(), conf.get_voters_outgoing()));
+                }
+                let unapplied_cc = post.entries.iter().enumerate().any(|(k, e)| { let idx = post.first + k as u64; idx > applied && idx <= pre.commit && e.1 != 0 });
+                if unapplied_cc {
+                    self.violate("C09", format!("n{} started an election while a committed membership change is unapplied (applied {}, committed {})", id, applied, pre.commit));
+                }
+            }
+        }
+        // C13 monitors on the messages generated by this call
+        for m in &gen {
+            let r = &self.nodes[i].rn.as_ref().unwrap().raft;
+            match m.get_msg_type() {
+                MessageType::MsgAppend => {
+                    if m.commit > post.commit {
+                        self.violate("C13", format!("n{} advertised commit {} in an append while its own commit index is {}", id, m.commit, post.commit));
+                    }
+                    let max = self.nodes[i].cfg.max_size_per_msg;
+                    if !self.nodes[i].cfg.batch_append && m.entries.len() > 1 && max != u64::MAX {
+                        let total: u64 = m.entries.iter().map(|e| e.compute_size() as u64).sum();
+                        if total > max {
+                            self.violate("C13", format!("n{} packed {} bytes of entries ({} entries) into one append, max_size_per_msg is {}", id, total, m.entries.len(), max));
+                        }
+                    }
+                }
+                MessageType::MsgHeartbeat => {
+                    let matched = r.prs().get(m.to).map(|p| p.matched).unwrap_or(0);
+                    if m.commit > post.commit || m.commit > matched {
+                        self.violate("C13", format!("n{} advertised commit {} in a heartbeat to {} (own commit {}, follower matched {})", id, m.commit, m.to, post.commit, matched));
+                    }
+                }
+                _ => {}
+            }
+        }
         // log
         let pre_last = pre.first + pre.entries.len() as u64 - 1;
         let post_last = post.first + post.entries.len() as u64 - 1;
